@@ -300,5 +300,161 @@ theorem inv_step (C : Cfg) (s s' : LState) (a : Act) (h : Inv C s) (hs : step C 
       · intro _; exact ⟨fun h0 => absurd rfl h0.2, fun _ => rfl⟩
       · intro _; rfl
     · cases hs
+  | tick t =>
+    simp only [step] at hs
+    cases hs
+    exact ⟨hN, hM, hC, hG, hA, hAr, hI, hNI, hCl, hSt, hR, hIso, hFU, hFT⟩
+  | expire g =>
+    simp only [step] at hs
+    split at hs
+    · rename_i hg
+      cases hs
+      have hne : s.timer ≠ none := by rw [hg.1]; simp
+      split
+      · refine ⟨hN, hM, hC, hG, hA, ?_, ?_, ?_, ?_, ?_, hR, hIso, hFU, hFT⟩
+        · intro g' hg'; simp at hg'
+        · intro hm; exact absurd (hI hm).2.2.1 hne
+        · intro hi; exact absurd (hNI hi).1 hne
+        · intro _; exact Or.inl rfl
+        · intro _; exact Or.inl rfl
+      · refine ⟨hN, hM, hC, hG, hA, ?_, ?_, ?_, hCl, hSt, hR, hIso, hFU, hFT⟩
+        · intro g' hg'; simp at hg'
+        · intro hm; exact absurd (hI hm).2.2.1 hne
+        · intro hi; exact absurd (hNI hi).1 hne
+    · cases hs
+
+/-! ### Timed invariant (system `tsys`: a due timer's callback runs without delay) -/
+
+structure TInv (C : Cfg) (s : LState) : Prop where
+  armed : ∀ g, s.timer = some (g, true) → s.active = 0 ∧ s.zeroSince + C.T ≤ s.deadline
+  cz : s.active = 0 → s.lastCount ≤ s.zeroSince
+  mono : s.zeroSince ≤ s.now ∧ s.lastCount ≤ s.now
+  nofired : s.fired = []
+
+theorem tinv_init (C : Cfg) : TInv C init := by
+  constructor <;> simp [init]
+
+theorem tinv_step (C : Cfg) (hTG : C.T ≤ C.G) (s s' : LState) (a : Act) (hI : Inv C s) (h : TInv C s)
+    (hs : (tsys C).step s a = some s') : TInv C s' := by
+  obtain ⟨hA, hZ, hM, hF⟩ := h
+  have hnn : 0 ≤ s.active := by rw [hI.cnt]; exact Int.natCast_nonneg _
+  cases a with
+  | fire g => simp [tsys] at hs
+  | timerRun g => simp [tsys] at hs
+  | bind st =>
+    simp only [tsys, step] at hs
+    split at hs
+    · rename_i hm
+      have h0 := (hI.initS hm).1
+      cases hs
+      split
+      · refine ⟨?_, hZ, hM, hF⟩
+        intro g _
+        refine ⟨h0, ?_⟩
+        simp only [arm]
+        have := hM.1
+        omega
+      · exact ⟨hA, hZ, hM, hF⟩
+    · cases hs
+  | accept c =>
+    simp only [tsys, step] at hs
+    split at hs
+    · cases hs; exact ⟨hA, hZ, hM, hF⟩
+    · cases hs
+  | count =>
+    simp only [tsys, step] at hs
+    split at hs
+    · cases hs
+      refine ⟨?_, ?_, ?_, hF⟩
+      · intro g hg; simp [disarm] at hg
+      · intro h0; simp only [disarm] at h0; omega
+      · simp only [disarm]; exact ⟨hM.1, Nat.le_refl _⟩
+    · cases hs
+  | send c x =>
+    simp only [tsys, step] at hs
+    split at hs
+    · cases hs; exact ⟨hA, hZ, hM, hF⟩
+    · cases hs
+  | serveOne c =>
+    simp only [tsys, step] at hs
+    split at hs
+    · split at hs
+      · cases hs
+      · cases hs; exact ⟨hA, hZ, hM, hF⟩
+    · cases hs
+  | connDone c =>
+    simp only [tsys, step] at hs
+    split at hs
+    · rename_i hsc
+      have hcin : c ∈ s.ids := (hI.mem c).1 (by rw [hsc]; simp)
+      have hpos : 0 < openCount s := by
+        simp only [openCount, List.countP_pos_iff]; exact ⟨c, hcin, by simp [hsc]⟩
+      have hap : 1 ≤ s.active := by rw [hI.cnt]; omega
+      have hna : ∀ g, s.timer ≠ some (g, true) := by
+        intro g hg; have := (hA g hg).1; omega
+      cases hs
+      split
+      · rename_i hcond
+        refine ⟨?_, ?_, ?_, hF⟩
+        · intro g _
+          refine ⟨hcond.1, ?_⟩
+          simp only [arm]
+          have h0 : s.active - 1 = 0 := hcond.1
+          simp only [h0, if_true]
+          omega
+        · intro h0
+          have h0' : s.active - 1 = 0 := h0
+          simp only [arm, h0', if_true]
+          exact hM.2
+        · simp only [arm]
+          refine ⟨?_, hM.2⟩
+          split
+          · exact Nat.le_refl _
+          · exact hM.1
+      · refine ⟨?_, ?_, ?_, hF⟩
+        · intro g hg; exact absurd hg (hna g)
+        · intro h0
+          have h0' : s.active - 1 = 0 := h0
+          simp only [h0', if_true]
+          exact hM.2
+        · refine ⟨?_, hM.2⟩
+          show (if s.active - 1 = 0 then s.now else s.zeroSince) ≤ s.now
+          split
+          · exact Nat.le_refl _
+          · exact hM.1
+    · cases hs
+  | acceptErr f =>
+    simp only [tsys, step] at hs
+    split at hs
+    · cases hs; exact ⟨hA, hZ, hM, hF⟩
+    · cases hs
+  | leave =>
+    simp only [tsys, step] at hs
+    split at hs
+    · cases hs
+      refine ⟨?_, hZ, hM, hF⟩
+      intro g hg; simp [disarm] at hg
+    · cases hs
+  | ret =>
+    simp only [tsys, step] at hs
+    split at hs
+    · cases hs; exact ⟨hA, hZ, hM, hF⟩
+    · cases hs
+  | tick t =>
+    simp only [tsys, step] at hs
+    cases hs
+    refine ⟨hA, hZ, ?_, hF⟩
+    have := hM
+    exact ⟨by simp only; omega, by simp only; omega⟩
+  | expire g =>
+    simp only [tsys, step] at hs
+    split at hs
+    · cases hs
+      split
+      · refine ⟨?_, hZ, hM, hF⟩
+        intro g' hg'; simp at hg'
+      · refine ⟨?_, hZ, hM, hF⟩
+        intro g' hg'; simp at hg'
+    · cases hs
 
 end Vgi.Listener
